@@ -64,14 +64,14 @@ fn place_block(buf: &mut LineMarks) -> usize {
 
 /// Hole search: the result is the first maximal run of available lines at/after the cursor, None iff there is none.
 /// A line is available iff its mark is neither the current line mark state nor the state of the last full GC.
-fn check_hole_search() {
+fn check_hole_search(min_cursor: usize) {
     let mut buf = LineMarks(kani::any());
     let img = buf.0;
     let b = place_block(&mut buf);
     let (ms, us): (u8, u8) = (kani::any(), kani::any());
     kani::assume(ms >= 1 && ms <= Line::MAX_MARK_STATE && us >= 1 && us <= Line::MAX_MARK_STATE);
     let c0: usize = kani::any();
-    kani::assume(c0 < LINES);
+    kani::assume(c0 >= min_cursor && c0 < LINES);
     let avail = |i: usize| img[i] != ms && img[i] != us;
     let j: usize = kani::any();
     kani::assume(j >= c0 && j < LINES);
@@ -91,17 +91,26 @@ fn check_hole_search() {
         }
     }
     assert!(buf.0 == img, "C34.hole_search.does_not_write_line_marks");
-    kani::cover!(r.is_none() && c0 == 0, "C34.cover.full_block_no_hole");
+    kani::cover!(r.is_none() && c0 == min_cursor, "C34.cover.no_hole_after_cursor");
     kani::cover!(r.is_some() && r.unwrap().1.start().as_usize() == b + Block::BYTES, "C34.cover.hole_reaches_block_end");
     kani::cover!(r.is_some() && r.unwrap().0.start().as_usize() > b + (c0 << LOG_LINE) && c0 > 0, "C34.cover.hole_after_live_lines");
     std::mem::forget(buf);
 }
 
+/// Quick tier: the search cursor lies in the last 24 lines of the block (the loops then run at most 24 times).
+#[kani::proof]
+#[kani::unwind(27)]
+#[kani::stub(mmtk::util::metadata::side_metadata::global_side_metadata_base_address, stub_base)]
+fn c34_hole_search() {
+    check_hole_search(LINES - 24);
+}
+
+/// Thorough tier: any cursor (loops bounded by the code constant Block::LINES).
 #[kani::proof]
 #[kani::unwind(131)]
 #[kani::stub(mmtk::util::metadata::side_metadata::global_side_metadata_base_address, stub_base)]
-fn c34_hole_search() {
-    check_hole_search();
+fn c34_hole_search_deep() {
+    check_hole_search(0);
 }
 
 /// Marking the lines of an object: every line the object overlaps carries the current state afterwards, no other
@@ -114,7 +123,7 @@ fn check_mark_lines(max_size: usize) {
     kani::assume(state >= 1 && state <= Line::MAX_MARK_STATE);
     let off: usize = kani::any();
     let size: usize = kani::any();
-    kani::assume(off % 8 == 0 && size >= 8 && size <= max_size && off + size <= Block::BYTES);
+    kani::assume(off % 8 == 0 && off < Block::BYTES && size >= 8 && size <= max_size && off + size <= Block::BYTES);
     ctl::set_current_size(size);
     let obj = ObjectReference::from_raw_address(addr(b + off)).unwrap();
     let n = Line::mark_lines_for_object::<KVM0>(obj, state);
@@ -128,9 +137,9 @@ fn check_mark_lines(max_size: usize) {
         assert!(buf.0[j] == img[j], "C34.mark_lines.other_lines_unchanged");
     }
     let mut newly = 0;
-    let mut k = 0;
-    while k < LINES {
-        if k >= first && k <= last && img[k] != state {
+    let mut k = first;
+    while k <= last {
+        if img[k] != state {
             newly += 1;
         }
         k += 1;
@@ -142,7 +151,7 @@ fn check_mark_lines(max_size: usize) {
 }
 
 #[kani::proof]
-#[kani::unwind(131)]
+#[kani::unwind(8)]
 #[kani::stub(mmtk::util::metadata::side_metadata::global_side_metadata_base_address, stub_base)]
 fn c34_mark_lines_for_object() {
     check_mark_lines(1024);
